@@ -3,7 +3,9 @@
 //!   vh repl replay <scenarios.ndjson> --out trace     (scenario = list of steps from TLC)
 //!   vh repl record --seed S --n N --out trace
 use crate::crdt::obs;
+use crate::stream::HarnessTime;
 use crate::util::*;
+use std::sync::{Arc, Mutex};
 use rand::Rng;
 use redis_sim::production::{ReplicatedShardActor, ReplicatedShardHandle};
 use redis_sim::redis::{Command, RespValue};
@@ -76,7 +78,9 @@ async fn served(h: &NodeH) -> Value {
         "none" => json!({"t": "none", "v": "", "h": []}),
         "string" => {
             let g = h.execute(argv_cmd(&["GET", KEY])).await.0;
-            json!({"t": "str", "v": bulk(&g).unwrap_or_default(), "h": []})
+            // the TTL the node reports (its clock stands still: the TTL the key was given), -1 = none
+            let e = match h.execute(argv_cmd(&["PTTL", KEY])).await.0 { RespValue::Integer(n) if n >= 0 => n, _ => -1 };
+            json!({"t": "str", "v": bulk(&g).unwrap_or_default(), "h": [], "e": e})
         }
         "hash" => {
             let g = h.execute(argv_cmd(&["HGETALL", KEY])).await.0;
@@ -441,7 +445,11 @@ pub fn main(args: &[String]) -> i32 {
                 let hkeys = ["ch:1", "ch:{2}"];
                 let nsteps = rng.gen_range(4..=14usize);
                 let ev = rt.block_on(async {
-                    let nodes: Vec<ReplicatedShardedState> = (1..=nn).map(|i| ReplicatedShardedState::new(ReplicationConfig { replica_id: i as u64, enabled: true, ..Default::default() })).collect();
+                    // every other run the nodes share a hand-driven clock: some SETs carry a TTL, time passes between the steps,
+                    // the TTL manager's tick (evict_expired_all_shards) runs on some node now and then
+                    let timed = run % 2 == 0;
+                    let clock = Arc::new(Mutex::new(1_000_000u64));
+                    let nodes: Vec<ReplicatedShardedState<HarnessTime>> = (1..=nn).map(|i| ReplicatedShardedState::with_time_source(ReplicationConfig { replica_id: i as u64, enabled: true, ..Default::default() }, HarnessTime(clock.clone()))).collect();
                     let mut wire: Vec<(usize, String)> = Vec::new();   // (destination, JSON of the message)
                     let mut script: Vec<Value> = Vec::new();
                     let mut lost = 0usize;
@@ -449,7 +457,14 @@ pub fn main(args: &[String]) -> i32 {
                     for _ in 0..nsteps {
                         let x = rng.gen_range(0..nn);
                         serial += 1;
+                        if timed {
+                            *clock.lock().unwrap() += [0u64, 1, 40, 120, 400][rng.gen_range(0..5)];
+                            if rng.gen_bool(0.3) {
+                                let _ = nodes[rng.gen_range(0..nn)].evict_expired_all_shards().await;
+                            }
+                        }
                         let argv: Vec<String> = match rng.gen_range(0..9) {
+                            0 if timed => vec!["SET".into(), skeys[rng.gen_range(0..3)].into(), format!("v{serial}"), "PX".into(), [30u64, 100, 250][rng.gen_range(0..3)].to_string()],
                             0 | 1 => vec!["SET".into(), skeys[rng.gen_range(0..3)].into(), format!("v{serial}")],
                             2 => vec!["DEL".into(), skeys[rng.gen_range(0..3)].into()],
                             3 => vec!["MSET".into(), skeys[0].into(), format!("m{serial}"), skeys[1].into(), format!("n{serial}")],
@@ -486,6 +501,13 @@ pub fn main(args: &[String]) -> i32 {
                             }
                         }
                     }
+                    // (timed runs) every TTL runs out and the ticks run everywhere BEFORE the late messages arrive ...
+                    if timed {
+                        *clock.lock().unwrap() += 1000;
+                        for n in &nodes {
+                            let _ = n.evict_expired_all_shards().await;
+                        }
+                    }
                     // everything still on the wire arrives, in any order
                     while !wire.is_empty() {
                         let i = rng.gen_range(0..wire.len());
@@ -503,6 +525,15 @@ pub fn main(args: &[String]) -> i32 {
                                 if y != x {
                                     nodes[y].apply_remote_deltas(ds.clone());
                                 }
+                            }
+                        }
+                    }
+                    // ... and once more afterwards: a TTL that a late delivery re-armed on the receiver has run out as well
+                    if timed {
+                        for _ in 0..2 {
+                            *clock.lock().unwrap() += 1000;
+                            for n in &nodes {
+                                let _ = n.evict_expired_all_shards().await;
                             }
                         }
                     }
@@ -524,7 +555,7 @@ pub fn main(args: &[String]) -> i32 {
                         let snap: std::collections::BTreeMap<String, redis_sim::replication::state::ReplicatedValue> = n.snapshot_state().await.into_iter().collect();
                         views.push(json!({"reads": v, "rs": snap.iter().map(|(k, x)| json!([k, crate::crdt::obs(x)])).collect::<Vec<_>>()}));
                     }
-                    json!({"a": "cluster", "nn": nn, "lost": lost, "script": script, "views": views})
+                    json!({"a": "cluster", "nn": nn, "timed": timed, "lost": lost, "script": script, "views": views})
                 });
                 out.emit(&json!({"a": "reset", "run": run, "n": nn}));
                 let mut ev = ev;
